@@ -117,7 +117,7 @@ func GenTree(r *Rng, o TreeOpts) *Tree {
 	switch o.ErrPage {
 	case "valid":
 		t.Cfg.ErrPage = "errors/500"
-		t.add("errors/500", "errorpage", "<h1>CUSTOM_ERROR_PAGE</h1><p>sorry</p>")
+		t.add("errors/500", "errorpage", "{{ title = \"Oops\" }}<h1>CUSTOM_ERROR_PAGE</h1><p>sorry {{ title }}</p>")
 		t.Pages = append(t.Pages, "errors/500")
 	case "failing":
 		t.Cfg.ErrPage = "errors/500"
